@@ -383,3 +383,170 @@ def run_C06(rng, tier):
 
 def approx_s(g):
     return "%s (~%.6g)" % (g, float(g)) if isinstance(g, F) else str(g)
+
+# ---------------------------------------------------------------------------------- C07
+LN199 = None
+def range_of(d):
+    """(lo, hi, strict_hi) exact-rational bounds for the view's documented range, tolerance for surrogate rounding"""
+    name = d[0]
+    n = d[1] if len(d) > 1 and isinstance(d[1], int) else None
+    one = F(1)
+    if name == "Rsi":
+        return (F(0), F(100))
+    if name in ("MyRsi", "Hln", "Cti", "Net", "Tanh", "Pfe"):
+        return (-one, one)
+    if name in ("Lrsi", "Entropy"):
+        return (F(0), one)
+    if name == "Eft":
+        return (-O.SG.sln(F(199)) - F(1, 10 ** 6), O.SG.sln(F(199)) + F(1, 10 ** 6))
+    if name in ("Welford", "WRolling"):
+        return (F(0), None)
+    if name == "Drawdown":
+        return (F(0), one)
+    return None
+
+def run_C07(rng, tier):
+    k = scale(tier)
+    names = ["Rsi", "MyRsi", "Hln", "Cti", "Net", "Lrsi", "Entropy", "Welford", "Vsct", "Cog", "Min", "Max", "Sma", "Alma"]
+    cases = []
+    for i in range(150 * k):
+        name = names[i % len(names)]
+        d = mk_view(rng, name, n=pick_n(rng, max(2, WINDOWED[name])))
+        reg, xs = stream_for(rng, d, regime=rng.choice(["iid", "walk", "monotone", "ties", "const_stretch", "spike", "volatile_flat", "const", "signs"]))
+        if name == "Cog":
+            reg, xs = gen_stream(rng, len(xs), positive=True)
+        cases.append(Case.simple(d, xs, {"regime": reg, "view": name}))
+    for i in range(12 * k):
+        reg, xs = gen_stream(rng, 24, positive=True)
+        cases.append(Case.simple(("Drawdown", E), xs, {"regime": reg, "view": "Drawdown"}))
+        reg, xs = gen_stream(rng, 24)
+        cases.append(Case.simple(("WRolling", E), xs, {"regime": reg, "view": "WRolling"}))
+        cases.append(Case.simple(("Tanh", rng.choice([E, ("Roc", 2, E), ("Cumulative", 3, E)])), xs, {"regime": reg, "view": "Tanh"}))
+        c = F(rng.below(17) - 8, 2)
+        cases.append(Case.simple(("Gte", c, E), xs, {"regime": reg, "view": "Gte"}))
+        cases.append(Case.simple(("Lte", c, E), xs, {"regime": reg, "view": "Lte"}))
+    for i in range(10 * k):
+        d = mk_view(rng, "Eft")
+        reg, xs = stream_for(rng, d, 24)
+        cases.append(Case.simple(d, xs, {"regime": reg, "view": "Eft"}))
+        d = ("Pfe", 3 + rng.below(6), E, rng.choice(MAS))
+        reg, xs = stream_for(rng, d)
+        cases.append(Case.simple(d, xs, {"regime": reg, "view": "Pfe"}))
+    # the recorded PFE witness (W4 = D13): constant input
+    cases.append(Case.simple(("Pfe", 16, E, ("Ema", 1, E)), [F(1)] * 18, {"regime": "const", "view": "Pfe"}))
+    run_impl(cases)
+    viols = O.c07(cases)
+    # f64: the same bounds up to a few ulps of the bound
+    fcases = []
+    for c in cases[:len(cases) // 2]:
+        fcases.append(Case(c.desc, c.ops, dict(c.meta, model=False, mode="f64")))
+    for n in (2, 3, 5, 13):
+        for v in ("Rsi", "MyRsi", "Hln", "Cti", "Net", "Vsct", "Welford"):
+            for rep in range(2 * k):
+                pre = [F(rng.below(4000000) - 2000000, 1000) for _ in range(10 + rng.below(20))]
+                flat = [F(rng.below(1000), 10)] * (n + 3)
+                fcases.append(Case.simple((v, n, E), pre + flat + [flat[0] + F(1, 7)], {"regime": "volatile_flat_f64", "view": v, "model": False, "mode": "f64"}))
+    run_impl(fcases, mode="f64")
+    viols += O.c07(fcases, f64=True)
+    return finish("C07", "C07", cases, viols, "every bounded view, N>=2, all regimes incl. constant stretches after volatile ones, spikes, monotone runs; exact-rational bound check at every step, and an f64 repeat with a tolerance of 4 ulps of the bound",
+                  {"f64_cases": len(fcases)})
+
+# ---------------------------------------------------------------------------------- C08
+WARMUP = {"Sma": lambda n: n, "Ema": lambda n: n, "Ss": lambda n: n, "Rsi": lambda n: n, "MyRsi": lambda n: n,
+          "Min": lambda n: 1, "Max": lambda n: 1, "Cumulative": lambda n: 1, "Alma": lambda n: 1, "Cog": lambda n: 1, "Entropy": lambda n: 1}
+def run_C08(rng, tier):
+    k = scale(tier)
+    cases = standalone_cases(rng, ALL_UNARY, 2 * len(ALL_UNARY) * k)
+    for i in range(40 * k):
+        name = ALL_UNARY[rng.below(len(ALL_UNARY))]
+        pos = name in POSITIVE_ONLY
+        inner = rng.choice(INNERS_POS if pos else INNERS)
+        d = mk_view(rng, name, inner)
+        reg, xs = stream_for(rng, d)
+        if pos or inner[0] == "LnReturn":
+            reg, xs = gen_stream(rng, len(xs), positive=True, grid=1 if is_heavy(d) else 4)
+        cases.append(Case.simple(d, xs, {"regime": reg, "view": name, "chain": True}))
+    # starved wrappers: the inner view never delivers
+    for name in ("Sma", "Hln", "Cti", "Welford", "Drawdown", "Gte", "Rsi", "Net"):
+        d = mk_view(rng, name, ("Sma", 50, E))
+        reg, xs = gen_stream(rng, 12, positive=True)
+        cases.append(Case(d, [("l", 0)] + [("u", 0, x) for x in xs], {"regime": "starved", "view": name}))
+    run_impl(cases)
+    viols = O.c08(cases, WARMUP)
+    # long f64 runs: readiness never reverts, values stay finite
+    fcases = []
+    for i in range(60 * k):
+        name = ALL_UNARY[i % len(ALL_UNARY)]
+        d = mk_view(rng, name, n=None)
+        L = 400
+        reg, xs = gen_stream(rng, L, positive=name in POSITIVE_ONLY, grid=8)
+        fcases.append(Case.simple(d, xs, {"regime": reg, "view": name, "model": False, "mode": "f64"}))
+    run_impl(fcases, mode="f64")
+    viols += O.c08(fcases, {}, f64=True)
+    return finish("C08", "C08", cases, viols, "every view stand-alone and in two-level chains, N from its minimum, in-domain inputs: None-prefix then values for ever, first value at the documented index, no error; starved wrappers; 400-step f64 runs for finiteness",
+                  {"f64_cases": len(fcases)})
+
+# ---------------------------------------------------------------------------------- C13
+def run_C13(rng, tier):
+    k = scale(tier)
+    cases = []
+    for i in range(60 * k):
+        name = ["WRolling", "WRollingMean", "Drawdown", "LnReturn"][i % 4]
+        reg, xs = gen_stream(rng, 20 + rng.below(30), positive=True, grid=rng.choice([1, 4, 10]))
+        cases.append(Case.simple((name, E), xs, {"regime": reg, "view": name}))
+    cases.append(Case.simple(("Drawdown", E), [10, 8, 12, 6, 12, 12, 3, 20, 19, 5, 40], {"regime": "new-peaks-after-drawdowns", "view": "Drawdown"}))
+    run_impl(cases)
+    viols = O.spec_check("C13", cases, "the batch definition over the whole history")
+    return finish("C13", "C13", cases, viols, "WelfordRolling mean()/last(), Drawdown, LnReturn on positive streams (new peaks after drawdowns, repeated peaks, monotone runs): batch definitions over the whole history, exact rationals")
+
+# ---------------------------------------------------------------------------------- C11
+C11_VIEWS = ["Ss", "Roofing", "Laguerre", "Lrsi", "Cyber", "TrendFlex", "ReFlex", "Eft", "Pfe"]
+def run_C11(rng, tier):
+    k = scale(tier)
+    cases = []
+    for i in range(110 * k):
+        name = C11_VIEWS[i % len(C11_VIEWS)]
+        d = mk_view(rng, name, n=(6 + rng.below(4) if name == "Cyber" else None))
+        reg, xs = stream_for(rng, d)
+        cases.append(Case.simple(d, xs, {"regime": reg, "view": name}))
+    run_impl(cases)
+    viols = O.spec_check("C11", cases, "the batch re-evaluation of the defining difference equations")
+    return finish("C11", "C11", cases, viols, "each Ehlers-style view stand-alone (every MA for EFT/PFE), N from its minimum: streaming output vs batch re-evaluation of the difference equations from the whole history; exact rationals, coefficients through the shared surrogate exp/cos/sin")
+
+# ---------------------------------------------------------------------------------- C10
+LINEAR = ["Sma", "Ema", "Alma", "Cumulative", "Laguerre", "Ss", "Roofing", "Cyber"]
+def run_C10(rng, tier):
+    k = scale(tier)
+    triples, cases = [], []
+    for i in range(70 * k):
+        name = LINEAR[i % len(LINEAR)]
+        d = mk_view(rng, name)
+        heavy = is_heavy(d)
+        L = 12 if heavy else 20 + rng.below(10)
+        g = 1 if heavy else 4
+        _, xs = gen_stream(rng, L, grid=g)
+        _, ys = gen_stream(rng, L, grid=g)
+        a, b = F(rng.below(13) - 6, 1 if heavy else 2), F(rng.below(13) - 6, 1 if heavy else 2)
+        zs = [a * x + b * y for x, y in zip(xs, ys)]
+        t = (Case.simple(d, xs, {"view": name, "regime": "x"}), Case.simple(d, ys, {"view": name, "regime": "y"}), Case.simple(d, zs, {"view": name, "regime": "ax+by"}), (a, b))
+        triples.append(t)
+        cases += t[:3]
+    consts = []
+    for name in ("Sma", "Ema", "Alma", "Laguerre", "Cyber"):
+        for n in ((6, 7, 9) if name == "Cyber" else (1, 2, 5)):
+            d = mk_view(rng, name, n=n)
+            consts.append(Case.simple(d, [F(7, 2)] * 16, {"view": name, "regime": "const"}))
+    for n in (4, 5):
+        consts.append(Case.simple(("Cyber", n, E), [F(1)] * 16, {"view": "Cyber", "regime": "const"}))
+    cases += consts
+    run_impl(cases)
+    viols = O.c10(triples, consts)
+    # f64 long runs: DC gain of SuperSmoother (-> c) and of the high-pass members (-> 0)
+    fc = []
+    for n in (2, 3, 5, 8, 16, 40):
+        fc.append(Case.simple(("Ss", n, E), [F(5)] * 3000, {"view": "Ss", "regime": "const-long", "model": False, "mode": "f64"}))
+        fc.append(Case.simple(("Roofing", n, 3, E), [F(5)] * 3000, {"view": "Roofing", "regime": "const-long", "model": False, "mode": "f64"}))
+        fc.append(Case.simple(("Cyber", n + 4, E), [F(5)] * 3000, {"view": "Cyber", "regime": "const-long", "model": False, "mode": "f64"}))
+    run_impl(fc, mode="f64")
+    viols += O.c10_dc(fc)
+    return finish("C10", "C10", cases, viols, "three runs x, y, a*x+b*y with rational a, b incl. 0 and negatives for the eight linear views: exact superposition at every step; constant streams for the DC gains (exact), 3000-step f64 runs for the limits", {"f64_cases": len(fc)})
